@@ -62,6 +62,8 @@ class Slice(NullCell):
         return bits
 
     def preload_uint(self, length: int) -> int:
+        if length == 0:
+            return 0
         return ba2int(self.bits[:length], signed=False)
 
     def load_uint(self, length: int) -> int:
@@ -70,6 +72,8 @@ class Slice(NullCell):
         return uint
 
     def preload_int(self, length: int) -> int:
+        if length == 0:
+            return 0
         return ba2int(self.bits[:length], signed=True)
 
     def load_int(self, length: int) -> int:
